@@ -39,3 +39,40 @@ Fixpoint zlist_eqb (a b : list Z) : bool :=
 
 Definition agrees (k : case) : bool :=
   let o := run k in (r_code o =? k_code k)%nat && zlist_eqb (visible (r_applied o)) (k_applied k).
+
+(* ------------------------------------------------------------------ the guarded theorem (iii), evaluated per case *)
+Require Import MS.Proofs.WalScan_facts.
+
+(** the file as Replay scans it (status record rewritten by TakeOverWALFile / WriteStatus) *)
+Definition scanned (k : case) : list byte :=
+  [byte_of_Z MID_STATUS; byte_of_Z WFS_OPEN; byte_of_Z WRS_REPLAYINPROCESS] ++ rd (k_bytes k) 3 8 ++ skipn 11 (k_bytes k).
+
+Fixpoint nodupb (l : list Z) : bool :=
+  match l with [] => true | x :: r => negb (existsb (Z.eqb x) r) && nodupb r end.
+
+(** [t] is framed as an intact record and no later frame is a checkpoint-commit record for an id >= t *)
+Fixpoint framed_harmless (t : Z) (evs : list ev) : bool :=
+  match evs with
+  | [] => false
+  | EvTG _ id _ :: post => if id =? t then forallb (harmless t) post else framed_harmless t post
+  | _ :: post => framed_harmless t post
+  end.
+
+(** hypotheses of C06_iii_frames / C06_iii_guarded_nil for every required transaction of the case:
+    the scan starts, no TGDATA key twice, replay returns nil, each required id is non-zero, framed, and
+    not followed by a checkpoint-commit frame >= it *)
+Definition in_domain (k : case) : bool :=
+  let o := run k in
+  let fr := frames md5 (scanned k) in
+  (r_code o =? 0)%nat && nodupb (keys fr)
+  && forallb (fun t => negb (t =? 0) && framed_harmless t fr) (k_req k).
+
+(** conclusion: every required transaction is applied (by the MODEL) *)
+Definition model_applies_required (k : case) : bool :=
+  let o := run k in forallb (fun t => existsb (fun e => fst e =? t) (r_applied o)) (k_req k).
+
+(** (ii) on the model: every applied id is the id of some intact frame (cheap sanity mirror of the theorem) *)
+Definition model_applied_framed (k : case) : bool :=
+  let o := run k in
+  let fr := frames md5 (scanned k) in
+  forallb (fun e => existsb (fun f => match f with EvTG _ id _ => id =? fst e | _ => false end) fr) (r_applied o).
